@@ -56,19 +56,32 @@ def check(chk, repo):
         node = a.args[0] if a.args else None
         okn = False
         detail = "each appended node must be Node(<id>, <label>, row) for each row of X_unlabeled in order"
-        if node is not None and node[0] == "new" and node[1] == "Node" and a.loops:
+        arms = []
+
+        def collect(t):
+            if t[0] == "sel":
+                collect(t[2])
+                collect(t[3])
+            else:
+                arms.append(t)
+
+        if node is not None:
+            collect(node)
+        if arms and all(t[0] == "new" and t[1] == "Node" for t in arms) and a.loops:
             li = w.loops[a.loops[-1]]
             dom = li.domain
-            feats = None
-            if len(node[2]) >= 3:
-                feats = node[2][2]
-            for k, v in node[3]:
-                if k == "features":
-                    feats = v
-            if dom == ("call", ("builtin", "enumerate"), (("param", "X_unlabeled"),), ()):
-                okn = feats == ("iterproj", dom, li.lid, (1,))
-            elif dom == ("param", "X_unlabeled"):
-                okn = feats == ("iter", dom, li.lid)
+            okn = True
+            for t in arms:
+                feats = t[2][2] if len(t[2]) >= 3 else None
+                for k, v in t[3]:
+                    if k == "features":
+                        feats = v
+                if dom == ("call", ("builtin", "enumerate"), (("param", "X_unlabeled"),), ()):
+                    okn = okn and feats == ("iterproj", dom, li.lid, (1,))
+                elif dom == ("param", "X_unlabeled"):
+                    okn = okn and feats == ("iter", dom, li.lid)
+                else:
+                    okn = False
             okn = okn and len(a.loops) == 1 and a.guards == ()
         rep.ev("SEMI-append-rows", a, okn, detail)
     # 3. seeding + competition
